@@ -11,6 +11,7 @@ import (
 	"go/ast"
 	"go/token"
 	"go/types"
+	"sort"
 	"strings"
 )
 
@@ -174,6 +175,9 @@ func unmarshalUnit(prog *Program, ms *MsgSchema, o unmarshalOpts) (u *Unit) {
 	}()
 	st := newState()
 	detectRoles(lit, "unmarshal")
+	if o.safety {
+		c.allocHook = recordLocalAllocBound(c, lit)
+	}
 	xref := c.setupClosure(lit, st, ms)
 	x := PtrV{Ref: xref, Named: ms.Named}
 	c.loadStruct(st, x) // entry heap components exist before the snapshot
@@ -234,6 +238,10 @@ func unmarshalUnit(prog *Program, ms *MsgSchema, o unmarshalOpts) (u *Unit) {
 									c.addObl(Obl{Name: fmt.Sprintf("%s/%s/depth[callee budget < caller budget]", u.Name, fieldName), Kind: "depth", Guard: st.guard,
 										Goal: and(c.ltIdx(c.ilit(0), d.T), and(c.ltIdx(rl.T, d.T), not("(= "+rl.T+" "+c.ilit(0)+")"))), Pos: c.pos(call.Pos()),
 										Text: "a nested decode happens only with a live budget (input.Depth > 0) and gets one that is strictly smaller and not the zero proto.UnmarshalOptions would re-default; a callee handed a non-positive budget returns the recursion error"})
+									one := c.ilit(1)
+									c.addObl(Obl{Name: fmt.Sprintf("%s/%s/depth[callee budget == caller budget - 1]", u.Name, fieldName), Kind: "depth", Guard: st.guard,
+										Goal: implies(c.ltIdx(one, d.T), "(= "+rl.T+" "+c.subIdx(d.T, one)+")"), Pos: c.pos(call.Pos()),
+										Text: "every nested decode of this call gets the same budget, input.Depth - 1, however many sub-messages were decoded before it (siblings do not use the budget up)"})
 								}
 							}
 						}
@@ -320,6 +328,10 @@ func unmarshalUnit(prog *Program, ms *MsgSchema, o unmarshalOpts) (u *Unit) {
 		buf := entry.env[c.info.Defs[lit.Type.Params.List[0].Names[0]]].(StructV).F["Buf"].(SliceV)
 		for i, a := range c.allocs {
 			c.addObl(Obl{Name: fmt.Sprintf("%s/alloc#%d", u.Name, i+1), Kind: "alloc", Guard: a.Guard, Goal: c.leIdx(a.Size, buf.Len), Pos: a.Pos, Text: "make(…, n): n <= len(input) (allocation proportional to the input)"})
+			if a.Tight != "" {
+				c.addObl(Obl{Name: fmt.Sprintf("%s/alloc-record-local#%d", u.Name, i+1), Kind: "alloc", Guard: a.Guard, Goal: a.Tight, Pos: a.Pos,
+					Text: "make(…, n): n is bounded by the length of the record being decoded, not by what is left of the buffer (each nesting level may otherwise reserve the rest of its buffer: depth x payload)"})
+			}
 		}
 		// representation invariant at normal returns: no nil message stored as a list element or map value
 		c.wfObligations(u, ms, x)
@@ -453,4 +465,61 @@ func (c *Ctx) unknownContract(u *Unit, ms *MsgSchema, x PtrV, e, x1 *State, cc *
 		}
 	}
 	c.addObl(Obl{Name: name("frame[no known field changes]"), Kind: "frame", Guard: x1.guard, Goal: andAll(same), Pos: c.pos(cc.Pos()), Text: "the default branch changes no field other than unknownFields"})
+}
+
+// recordLocalAllocBound: the allocation bound of C06 per record.  A make(T, n) inside the case of a field is bounded by
+// the extent of the record being decoded: there is a variable E declared in that case (a payload end such as
+// postIndex, or a payload length such as packedLen / skippy) with preIndex <= E <= l and n <= E - preIndex (or the same
+// from the current iNdEx), or with 0 <= E <= l and n <= E.  "What is left of the buffer" (l - iNdEx) is not such a
+// bound: l and iNdEx are declared outside the case.
+func recordLocalAllocBound(c *Ctx, lit *ast.FuncLit) func(st *State, size string, at token.Pos) string {
+	var clauses []*ast.CaseClause
+	ast.Inspect(lit.Body, func(n ast.Node) bool {
+		if cc, ok := n.(*ast.CaseClause); ok {
+			clauses = append(clauses, cc)
+		}
+		return true
+	})
+	return func(st *State, size string, at token.Pos) string {
+		var outer *ast.CaseClause
+		for _, cc := range clauses {
+			if cc.Pos() <= at && at < cc.End() && (outer == nil || (cc.Pos() <= outer.Pos() && outer.End() <= cc.End())) {
+				outer = cc
+			}
+		}
+		if outer == nil {
+			return ""
+		}
+		pv, ok1 := envByName(st, "preIndex", at)
+		lv, ok2 := envByName(st, "l", at)
+		if !ok1 || !ok2 {
+			return ""
+		}
+		pre, l := pv.(Scalar), lv.(Scalar)
+		is := c.idx()
+		type cand struct {
+			pos token.Pos
+			t   string
+		}
+		var cands []cand
+		for o, v := range st.env {
+			sv, ok := v.(Scalar)
+			if !ok || sv.S != is || o.Pos() < outer.Pos() || o.Pos() >= outer.End() || o.Pos() >= at {
+				continue
+			}
+			cands = append(cands, cand{o.Pos(), sv.T})
+		}
+		sort.Slice(cands, func(i, j int) bool { return cands[i].pos < cands[j].pos })
+		goal := "false"
+		for _, cd := range cands {
+			asEnd := and(and(c.leIdx(pre.T, cd.t), c.leIdx(cd.t, l.T)), c.leIdx(size, c.subIdx(cd.t, pre.T)))
+			asLen := and(and(c.leIdx(c.ilit(0), cd.t), c.leIdx(cd.t, l.T)), c.leIdx(size, cd.t))
+			goal = or(goal, or(asEnd, asLen))
+			if cur, ok := envByName(st, "iNdEx", at); ok {
+				cs := cur.(Scalar)
+				goal = or(goal, and(and(c.leIdx(cs.T, cd.t), c.leIdx(cd.t, l.T)), c.leIdx(size, c.subIdx(cd.t, cs.T))))
+			}
+		}
+		return goal
+	}
 }
